@@ -12,6 +12,11 @@ case "$ID" in
   C15) T="authdata ctap_cbor webauthn_json hid u2f psl";; C16) T="hid";; C17) T="u2f";; *) exit 0;;
 esac
 [ "$SEED" = "0" ] && SEED=1
+if [ -n "${VERIF_REPO:-}" ] && [ "$VERIF_REPO" != "/repo" ]; then
+  # another checkout of the repository: substitute the path dependencies (see ./check)
+  R="$VERIF_REPO"
+  printf '[net]\noffline = true\n\npaths = ["%s/passkey-types", "%s/passkey-authenticator", "%s/passkey-client", "%s/passkey-transports", "%s/public-suffix"]\n' "$R" "$R" "$R" "$R" "$R" > $HERE/fuzz/.cargo/config.toml
+fi
 if ! CARGO_NET_OFFLINE=true cargo +nightly fuzz build --fuzz-dir . >/tmp/pkverif-fuzz-build.$$ 2>&1; then
   echo "FUZZ-STAGE-SKIPPED: cargo +nightly fuzz build failed" >&2; tail -5 /tmp/pkverif-fuzz-build.$$ >&2; rm -f /tmp/pkverif-fuzz-build.$$
   echo "{\"skipped\": \"fuzz build failed\"}" > $HERE/fuzz/last-$ID.json
